@@ -513,7 +513,11 @@ func Menagerie(r *rand.Rand) *model.Schema {
 		un.Members = append(un.Members, nm)
 	}
 	s.Types = append(s.Types, un)
+	// Ant sorts before every implementer, implements nothing, is in no union - and is served by the SAME Go type as Dog
+	s.Types = append(s.Types, &model.TypeDef{Kind: model.Object, Name: "Ant", GoAs: "Dog", Fields: []*model.FieldDef{
+		{Name: "name", Type: model.Named("String")}, {Name: "barks", Type: model.Named("Int")}}})
 	q := &model.TypeDef{Kind: model.Object, Name: "Query", Fields: []*model.FieldDef{
+		{Name: "ant", Type: model.Named("Ant")},
 		{Name: "pets", Type: model.ListOf(model.Named("Animal"))},
 		{Name: "anyPet", Type: model.ListOf(model.Named("Pet"))},
 		{Name: "a1", Type: model.Named("Animal")},
